@@ -3,7 +3,7 @@
 import json, subprocess
 
 HOOK_COMMITS = ["ac08067"]
-FIX_COMMITS = ["ee1d815", "296be57", "098316b", "7098e6b", "bcffdd6", "589a9d1", "787a52b", "01dcc1c", "13be19f", "eb8a8e1", "143bda1", "08fee98", "76d9565", "2fac958", "f13a010", "e0e2fbb", "6b377b1", "88e0012"]
+FIX_COMMITS = ["ee1d815", "296be57", "098316b", "7098e6b", "bcffdd6", "589a9d1", "787a52b", "01dcc1c", "13be19f", "eb8a8e1", "143bda1", "08fee98", "76d9565", "2fac958", "f13a010", "e0e2fbb", "6b377b1", "88e0012", "6cc0461", "a440b7e", "f1835f9"]
 
 # id -> (technique, level text, level note, design ref)
 CHECKS = {
@@ -38,8 +38,8 @@ CHECKS = {
          "Every pub/private assignment over seven item positions x every subset of the four markers on a plain type (and marker subsets on a vftable type and an enum), and every assignment of {none, one line, multi-line with empty lines} docs to seven positions, with a derived type inheriting documented members: visibility of every emitted type/field/method/accessor/slot, privacy of generated fields and placeholder slots, exact derive sets, packed-without-align repr, and #[doc] attributes line for line on the counterparts and on no other item.",
          "Enum variants are not among the counterparts the statement lists; their docs are only required not to land elsewhere.", "DESIGN.md §6 C17"),
  "C18": ("bounded-exhaustive enumeration of abstract modules x concrete-syntax styles (E1) and exhaustive token-sequence exploration of the parser (E3)",
-         "Abstract modules are built with pyxis's own grammar constructors (all types to nesting depth 4/5 in five positions, all attribute lists up to length 2 over a 13-attribute alphabet in eleven positions, all signatures with up to 3 arguments, all item sequences up to length 3, boundary integers in every integer position), printed by an independent printer in a covering set of styles (comments between all tokens, trailing commas, doc spellings, attribute grouping, integer spellings, backend forms, item interleaving) and must parse back to exactly the same value. Negative side: every token sequence over a 41-token alphabet to length 3, then breadth-first over the sequences the parser has not yet rejected to length 5 (7 thorough): accepted text must re-print and re-parse to the same module, rejected text must report a position inside the text, nothing may panic.",
-         "The printer is the harness's; `_` as an argument name is outside the de-facto language (the parser's lookahead does not admit it) and is not generated. No independent recogniser decides accept/reject of arbitrary token strings.", "DESIGN.md §6 C18"),
+         "Abstract modules are built with pyxis's own grammar constructors (all types to nesting depth 4/5 in five positions, all attribute lists up to length 2 over a 13-attribute alphabet in eleven positions, all signatures with up to 3 arguments, all item sequences up to length 3, boundary integers in every integer position), printed by an independent printer in a covering set of styles (comments between all tokens, trailing commas, doc spellings, attribute grouping, integer spellings, backend forms, item interleaving) and must parse back to exactly the same value. Negative side: every token sequence over a 41-token alphabet to length 3, then breadth-first over the sequences the parser has not yet rejected to length 5 (7 thorough): the parser's accept/reject must equal that of an independent reference recogniser of the grammar, accepted text must re-print and re-parse to the same module, rejected text must report a position inside the text, nothing may panic.",
+         "The printer is the harness's; `_` as an argument name is outside the de-facto language (the parser's lookahead does not admit it) and is not generated. Accept/reject of every explored token sequence is compared with a reference recogniser written from the grammar (token alphabet only; not arbitrary bytes).", "DESIGN.md §6 C18"),
  "C19": ("bounded-exhaustive enumeration of metamorphic pairs (E1): input set vs. the same set plus unrelated modules; byte comparison of the observed module's file",
          "Six base input sets around an observed module x 14 unrelated module bodies built to collide by name with the observed module's types, generated vftable struct, enum and extern value, to import it and to derive from it, x five module paths (including child paths of the observed and of an imported module) x added before/after, singly and in pairs, plus unreferenced types added to imported modules: the observed module's output file must be byte-identical whenever the changed set is accepted.",
          "Pairs whose changed set is rejected are outside the statement (counted in evidence).", "DESIGN.md §6 C19"),
